@@ -2,14 +2,15 @@
   Y0.Lemmas.CfIdcExch — soundness of IDC* on the EXCHANGE fragment:
 
     outcomes: a non-empty conjunction of FACTUAL variables of `G` with unstarred values; ONE factual condition `X = x` (another
-    name); rule 2 applies to it (line 4 recurses), every outcome descends from `X` (so every outcome becomes `Y_x`), and the
-    counterfactual graph of the exchanged outcomes keeps every `Y_x`.
+    name); rule 2 applies to it (line 4 recurses); every outcome descends from `X` in the counterfactual graph (every outcome
+    becomes `Y_x`) or none does (the outcomes stay as they are).
 
-  Then IDC* returns ID*'s answer for `⋀ Y_x = y`, which is `P(⋀ Y_x = y)` (`idStarFuel_sound_frag`, C07), and
+  Then IDC* returns ID*'s answer for `⋀ Y_x = y` (resp. `⋀ Y = y`), which is `P(⋀ Y_x = y)` (`idStarFuel_sound_frag`, C07), and
   `P(⋀ Y = y, X = x) = P(⋀ Y_x = y) · P(X = x)` in EVERY compatible functional SCM (`Fscm.prob_exchange_marginal`: rule 2 of the
   do-calculus proved on the noise space, no positivity of kernels), because the model's d-separation verdict on the
   counterfactual graph — here a relabelled copy of the ancestral part of `G` with nothing blocked — gives the graphical premise
-  (`sep_facts_of_no_path`).
+  (`sep_facts_of_no_path`); `Y_x` is `Y` for a non-descendant (`Fscm.solve_nondescendant`).  The recursive call builds the
+  counterfactual graph of the exchanged outcomes again; it keeps every `Y_x` (`keep_of_desc`), so the re-association changes nothing.
 -/
 import Y0.Lemmas.CfIdcSep
 import Y0.Lemmas.CfIdcRule2
